@@ -302,4 +302,80 @@ Proof.
     rewrite <- M3, <- He. apply st_eta.
 Qed.
 
+(* ---- many(Some(old elements)) ---- *)
+Section Many.
+Context {A : Type}.
+Variable pe : parser (A * nat).
+Variable qe : option (A * nat) -> iparser (A * nat).
+Variable start_of : A * nat -> nat.
+Variable Rel : A * nat -> A * nat -> Prop.      (* old element, element of the scratch parse *)
+Hypothesis Hwf : WF pe.
+Hypothesis Hsim : Sim pe (qe None).
+Hypothesis Hel : forall o, QSg Good (Rel o) pe (qe (Some o)).
+Hypothesis Hstart : forall o a s s1, Rel o a -> refp s <= pos s -> pe s = POk s1 a -> start_of o <= pos s.
+
+Lemma parse_insertion_none fuel e s acc : e <= ipos s -> parse_insertion qe fuel e s acc = (IOk s acc, acc).
+Proof. intros H. destruct fuel; cbn [parse_insertion]; destruct (Nat.ltb_spec (ipos s) e); try lia; reflexivity. Qed.
+
+Lemma many_old_reuse : forall olds fuel f' s s1 l acc,
+  Good s -> 0 < fuel -> p_many0 f' pe (proj s) = POk s1 l -> ebuf s1 = iebuf s -> Forall2 Rel olds l ->
+  exists s', many_old w w 0 qe start_of fuel olds s acc = IOk s' (acc ++ l) /\ proj s' = s1 /\ incr s' = incr s.
+Proof.
+  destruct Hwf as [Hf Hm].
+  induction olds as [|o rest IH]; intros fuel f' s s1 l acc Hg Hfu E He HR.
+  - inversion HR; subst. destruct f' as [|f']; [discriminate|]. cbn [p_many0] in E.
+    destruct fuel as [|fuel]; [lia|]. cbn [many_old i_many0]. pose proof (Hsim s) as Hss.
+    destruct (pe (proj s)) as [sa a|sa|] eqn:E1; try discriminate.
+    + destruct (Nat.eqb (pos sa) (pos (proj s))); [discriminate|].
+      apply bind_ok in E as (x1 & x2 & _ & X). discriminate X.
+    + injection E as <-. destruct (qe None s) as [s0' a'|s0' fl| |]; cbn in Hss; try contradiction.
+      cbn [ibind]. exists s. rewrite app_nil_r. auto.
+  - inversion HR as [|? a ? l' Ha Hl]; subst. destruct f' as [|f']; [discriminate|]. cbn [p_many0] in E.
+    destruct (pe (proj s)) as [sa a0|sa|] eqn:E1; try discriminate.
+    destruct (Nat.eqb (pos sa) (pos (proj s))); [discriminate|].
+    apply bind_ok in E as (s2 & l2 & E2 & X). injection X as <- <- <-.
+    pose proof (MonoE_ok pe _ _ _ Hm E1) as X1. pose proof (MonoE_ok _ _ _ _ (MonoE_many0 f' pe Hm) E2) as X2.
+    assert (He' : ebuf s2 = ebuf (proj s)) by exact He.
+    destruct (ext_quiet _ _ _ X1 X2 He') as [Y1 Y2].
+    pose proof Hg as (G1 & G2 & G3).
+    cbn [many_old]. unfold handle_insertions. rewrite is_insertion_here_empty, tc_new_pos_empty.
+    rewrite parse_insertion_none by (apply (Hstart o a0 (proj s) sa Ha G2 E1)).
+    destruct (Hel o s sa a0 Hg E1 Y1 Ha) as (sa' & Ea & A1 & A2). rewrite Ea.
+    assert (Hg' : Good sa') by (eapply (G_step Good); eauto using Stable_Good).
+    rewrite <- A1 in E2, Y2.
+    destruct (IH fuel f' sa' s2 l2 (acc ++ [a0]) Hg' Hfu E2 Y2 Hl) as (s' & E' & B1 & B2).
+    exists s'. rewrite E'. rewrite <- app_assoc. cbn [app]. repeat split; [exact B1 | congruence].
+Qed.
+
+Lemma QS_many fuel olds :
+  QSg Good (fun l => Forall2 Rel olds l) (p_many0 fuel pe) (i_many w w 0 qe start_of fuel (Some olds)).
+Proof.
+  intros s s1 l Hg E He HR. unfold i_many. destruct fuel as [|fuel]; [discriminate|].
+  destruct (many_old_reuse olds (S fuel) (S fuel) s s1 l [] Hg ltac:(lia) E He HR) as (s' & E' & B).
+  exists s'. rewrite E'. auto.
+Qed.
+
+End Many.
+
+Lemma many0_map {A B} (g : A -> B) (p : parser A) : forall f s s2 l,
+  p_many0 f (p_map g p) s = POk s2 l -> exists l', p_many0 f p s = POk s2 l' /\ l = map g l'.
+Proof.
+  induction f as [|f IH]; intros s s2 l E; [discriminate|]. cbn [p_many0] in *. unfold p_map in E at 1.
+  destruct (p s) as [s1 a|s1|]; cbn [bind] in E; try discriminate.
+  - destruct (Nat.eqb (pos s1) (pos s)); [discriminate|].
+    apply bind_ok in E as (s3 & l3 & E3 & X). injection X as <- <-.
+    destruct (IH _ _ _ E3) as (l' & E' & ->). rewrite E'. cbn [bind]. exists (a :: l'). auto.
+  - injection E as <- <-. exists []. auto.
+Qed.
+
+Lemma many0_all {A} (Q : A -> Prop) (p : parser A) :
+  (forall s s1 a, p s = POk s1 a -> Q a) -> forall f s s2 l, p_many0 f p s = POk s2 l -> Forall Q l.
+Proof.
+  intros H. induction f as [|f IH]; intros s s2 l E; [discriminate|]. cbn [p_many0] in E.
+  destruct (p s) as [s1 a|s1|] eqn:E1; try discriminate.
+  - destruct (Nat.eqb (pos s1) (pos s)); [discriminate|].
+    apply bind_ok in E as (s3 & l3 & E3 & X). injection X as <- <-. constructor; [eapply H; eauto | eapply IH; eauto].
+  - injection E as <- <-. constructor.
+Qed.
+
 End QS.
